@@ -42,6 +42,8 @@ type c18 struct {
 	// key-set options of the provider (rarely used): xKey belongs to the access-token key set only, zKey to the
 	// hint key set only
 	atKeySet, hintKeySet *extraKeySet
+	xKey, zKey           jose.JSONWebKey // zero in families with too few fixture keys
+	rotations            int
 }
 
 // extraKeySet is what an operator passes to op.WithAccessTokenKeySet / op.WithIDTokenHintKeySet: the provider's own
@@ -55,20 +57,11 @@ func (k *extraKeySet) VerifySignature(ctx context.Context, jws *jose.JSONWebSign
 	if k.store == nil || len(jws.Signatures) != 1 {
 		return nil, errors.New("extraKeySet: not usable")
 	}
-	kid := jws.Signatures[0].Header.KeyID
-	if kid == k.extra.KeyID {
+	if kid := jws.Signatures[0].Header.KeyID; k.extra.Key != nil && kid == k.extra.KeyID {
 		return jws.Verify(k.extra.Public())
 	}
-	keys, err := k.store.KeySet(ctx)
-	if err != nil {
-		return nil, err
-	}
-	for _, key := range keys {
-		if key.ID() == kid {
-			return jws.Verify(jose.JSONWebKey{Key: key.Key(), KeyID: key.ID(), Algorithm: string(key.Algorithm()), Use: key.Use()})
-		}
-	}
-	return nil, errors.New("extraKeySet: no key " + kid)
+	// everything else exactly as the provider's default key set does it
+	return (&op.OpenIDKeySet{Storage: k.store}).VerifySignature(ctx, jws)
 }
 
 func postLogoutAllowed(c *world.Client, uri string) bool {
@@ -106,11 +99,24 @@ func (c *c18) mkHint(ch *kernel.Chooser) hintInfo {
 		}
 		mod(m)
 		b, _ := json.Marshal(m)
+		if a, ok := alg.(jose.SignatureAlgorithm); ok {
+			return signRaw(b, a, priv, kid)
+		}
 		return signRaw(b, key.Alg, priv, kid)
+	}
+	// the family of the key the storage signs with now (after a rotation it may differ from the run's first one)
+	curPrefix := w.AlgPrefix
+	for _, f := range world.AlgFamilies {
+		if f.Alg == key.Alg {
+			curPrefix = f.Prefix
+		}
 	}
 	switch ch.Int(12) {
 	case 0: // signed with a key the provider does not publish, same kid
-		other := world.FixtureKey(w.AlgPrefix, (w.KeyN+1)%4)
+		other := world.FixtureKey(curPrefix, (w.KeyN+1)%4)
+		if curPrefix != w.AlgPrefix {
+			other = world.FixtureKey(curPrefix, 0) // rotated keys of another family are fixtures 2.. of that family
+		}
 		h.token, h.kind, h.valid = resign(func(map[string]any) {}, nil, other.Key, key.KID), "wrong-key", false
 	case 1: // right key, foreign issuer
 		h.token, h.kind, h.valid = resign(func(m map[string]any) { m["iss"] = "https://other.sim" }, nil, key.Priv, key.KID), "wrong-issuer", false
@@ -122,11 +128,17 @@ func (c *c18) mkHint(ch *kernel.Chooser) hintInfo {
 	case 4:
 		h.token, h.kind, h.valid = "garbage", "garbage", false
 	case 5: // signed by the key that only the access-token key set knows: never a valid hint
-		x := world.FixtureKey(w.AlgPrefix, (w.KeyN+2)%4)
-		h.token, h.kind, h.valid = resign(func(map[string]any) {}, nil, x.Key, "x-1"), "access-token-keyset-key", false
+		x := c.xKey
+		if x.Key == nil {
+			break
+		}
+		h.token, h.kind, h.valid = resign(func(map[string]any) {}, w.SigAlg, x.Key, "x-1"), "access-token-keyset-key", false
 	case 6: // signed by the key that only the hint key set knows: valid exactly when that option is in force
-		z := world.FixtureKey(w.AlgPrefix, (w.KeyN+3)%4)
-		h.token, h.kind, h.valid = resign(func(map[string]any) {}, nil, z.Key, "z-1"), "hint-keyset-key", c.hintKeySet != nil
+		z := c.zKey
+		if z.Key == nil {
+			break
+		}
+		h.token, h.kind, h.valid = resign(func(map[string]any) {}, w.SigAlg, z.Key, "z-1"), "hint-keyset-key", c.hintKeySet != nil
 		if h.valid {
 			c.o.Probe("hints-signed-by-the-hint-keyset-key")
 		}
@@ -140,6 +152,30 @@ func (c *c18) mkHint(ch *kernel.Chooser) hintInfo {
 		c.o.Probe("hints-of-other-tenant")
 	}
 	return h
+}
+
+// rotateKey: the storage starts signing with another key and keeps publishing the old one. Where the provider's
+// verifiers run with the library's default algorithm list the new key may be of another default algorithm (an RSA key
+// replaced by an EC key, RS256 by PS256). Hints issued before stay what they were: validly signed by a published key.
+func (c *c18) rotateKey(ch *kernel.Chooser) string {
+	w := c.w
+	c.rotations++
+	alg, prefix := w.SigAlg, w.AlgPrefix
+	if w.DefaultAlgs && ch.Bool(2, 3) {
+		f := []world.AlgFamily{{Alg: jose.RS256, Prefix: "rsa"}, {Alg: jose.ES256, Prefix: "p256-"}, {Alg: jose.PS256, Prefix: "rsa"}}[ch.Int(3)]
+		alg, prefix = f.Alg, f.Prefix
+	}
+	free := world.UnusedFixtureKeys(prefix, w.KeyN, 2)
+	if len(free) < 3 {
+		return "rotate: no spare key of family " + prefix
+	}
+	k := world.SignKeyFromFixture(free[2+c.rotations%(len(free)-2)], alg, fmt.Sprintf("sig-rot-%d", c.rotations))
+	w.Store.RotateKey(k, false)
+	c.o.Probe("signing-key-rotated")
+	if alg != w.SigAlg {
+		c.o.Probe("signing-key-rotated-to-another-algorithm")
+	}
+	return fmt.Sprintf("storage now signs with %s (%s); the earlier keys stay published", k.KID, alg)
 }
 
 func (c *c18) logout(ch *kernel.Chooser) string {
@@ -323,20 +359,28 @@ func RunC18(t *testing.T, spec kernel.Spec) *kernel.Outcome {
 				opts = append(opts, op.WithIDTokenHintKeySet(hintKS))
 			}
 		}
-		w, err := world.NewStd(o, tape, world.StdOptions{Router: spec.Params["router"], ForceConfig: nil, Tenants: tenants, Options: opts})
+		w, err := world.NewStd(o, tape, world.StdOptions{Router: spec.Params["router"], ForceConfig: nil, Tenants: tenants, Options: opts, DefaultVerifierAlgs: maxAge == 0 && tape.Sub("cfg-default-algs").Bool(2, 3)})
 		if err != nil {
 			o.Infra = "world: " + err.Error()
 			return
 		}
+		// x and z: keys of the family that the world uses for nothing else (wrong-key hints use fixture KeyN+1)
+		var xKey, zKey jose.JSONWebKey
+		if free := world.UnusedFixtureKeys(w.AlgPrefix, w.KeyN, 2); len(free) >= 2 {
+			xKey, zKey = free[0], free[1]
+			xKey.KeyID, zKey.KeyID = "x-1", "z-1"
+		}
 		if atKS != nil {
-			atKS.store, atKS.extra = w.Store, world.FixtureKey(w.AlgPrefix, (w.KeyN+2)%4)
-			atKS.extra.KeyID = "x-1"
-			o.Probe("separate-access-token-keyset")
+			atKS.store, atKS.extra = w.Store, xKey
+			if xKey.Key != nil {
+				o.Probe("separate-access-token-keyset")
+			}
 		}
 		if hintKS != nil {
-			hintKS.store, hintKS.extra = w.Store, world.FixtureKey(w.AlgPrefix, (w.KeyN+3)%4)
-			hintKS.extra.KeyID = "z-1"
-			o.Probe("separate-hint-keyset")
+			hintKS.store, hintKS.extra = w.Store, zKey
+			if zKey.Key != nil {
+				o.Probe("separate-hint-keyset")
+			}
 		}
 		cfg := tape.Sub("cfg2")
 		for _, id := range w.SortedClients() {
@@ -354,13 +398,16 @@ func RunC18(t *testing.T, spec kernel.Spec) *kernel.Outcome {
 			}
 			cl.IDLifetime = time.Duration(cfg.Range(1, 20)) * time.Minute
 		}
-		c := &c18{w: w, o: o, b: w.Net.NewBrowser("b1"), atKeySet: atKS, hintKeySet: hintKS}
+		c := &c18{w: w, o: o, b: w.Net.NewBrowser("b1"), atKeySet: atKS, hintKeySet: hintKS, xKey: xKey, zKey: zKey}
 		c.tw = &tokenWorld{w: w, o: o, prop: "C18", b: c.b}
 		n := 40 + tape.Sub("cfg").Int(40)
 		steps(o, tape, n, func(i int, ch *kernel.Chooser) string {
 			c.step, c.tw.step = i, i
 			if len(w.Issuers) > 1 {
 				w.UseIssuer(ch.Int(len(w.Issuers)))
+			}
+			if i > 3 && ch.Bool(1, 12) {
+				return c.rotateKey(ch)
 			}
 			switch x := ch.Int(10); {
 			case x < 2 || i < 2:
